@@ -284,6 +284,131 @@ class Program:
         self.by_q = {}
         for f in self.fns.values():
             self.by_q.setdefault(f.q, []).append(f)
+        self.inlined = 0
+        self.resolve_helpers()
+
+    # ------------------------------------------------------------------ wrapper resolution
+    ID_KEYS = ('cond', 'then', 'else', 'obj', 'val', 'lhs', 'sub', 'init', 'inc', 'body', 'try')
+    PURE_KINDS = {'ParenExpr', 'ImplicitCastExpr', 'ExprWithCleanups', 'MaterializeTemporaryExpr', 'CXXBindTemporaryExpr',
+                  'ConstantExpr', 'CXXFunctionalCastExpr', 'CStyleCastExpr', 'CXXStaticCastExpr', 'DeclRefExpr',
+                  'MemberExpr', 'CXXThisExpr', 'IntegerLiteral', 'FloatingLiteral', 'CXXBoolLiteralExpr',
+                  'CharacterLiteral', 'UnaryOperator', 'BinaryOperator', 'ConditionalOperator', 'CallExpr',
+                  'CXXMemberCallExpr', 'ArraySubscriptExpr', 'SubstNonTypeTemplateParmExpr'}
+
+    def _helper_root(self, g):
+        """return expression of a helper whose body is `{ return e; }` with e free of side effects, else None."""
+        from .build import REPO
+        lam = g.name == 'operator()' and '(anonymous class)' in g.q
+        local = (not g.is_method) and g.file.startswith(os.path.join(REPO, 'src') + os.sep) and g.file.endswith('.cpp')
+        if not (lam or local):
+            return None
+        body = g.d.get('body', -1)
+        if body is None or body < 0:
+            return None
+        b = g.nodes[body]
+        if b['k'] != 'CompoundStmt' or len(b['ch']) != 1:
+            return None
+        r = g.nodes[b['ch'][0]]
+        if r['k'] != 'ReturnStmt':
+            return None
+        root = r.get('val', -1)
+        if root is None or root < 0:
+            root = r['ch'][0] if r['ch'] else -1
+        if root < 0:
+            return None
+        t = g.d.get('ret', '').replace('const ', '').strip()
+        if not (t == 'bool' or t in ('int', 'unsigned int', 'double', 'float', 'long double')):
+            return None
+        for j in g.walk(root):
+            n = g.nodes[j]
+            if n['k'] not in self.PURE_KINDS:
+                return None
+            if n['k'] in ('BinaryOperator',) and n.get('op', '').endswith('=') and n['op'] not in ('==', '!=', '<=', '>='):
+                return None
+            if n['k'] == 'UnaryOperator' and n.get('op') in ('++', '--'):
+                return None
+            if n['k'] in ('CallExpr', 'CXXMemberCallExpr'):
+                ce = n.get('callee') or {}
+                if any(k_ in ('r', 'p') for k_ in ce.get('pk', [])) or (ce.get('method') and not ce.get('mconst') and not ce.get('mstatic')):
+                    return None
+        return root
+
+    def _pure_arg(self, f, nid):
+        for j in f.walk(nid):
+            n = f.nodes[j]
+            if n['k'] in ('CompoundAssignOperator', 'CXXOperatorCallExpr', 'CXXConstructExpr', 'LambdaExpr', 'CXXThrowExpr'):
+                return False
+            if n['k'] == 'BinaryOperator' and n.get('op') in ('=', ','):
+                return False
+            if n['k'] == 'UnaryOperator' and n.get('op') in ('++', '--'):
+                return False
+        return True
+
+    def _clone(self, g, nid, f, pmap):
+        n = g.nodes[nid]
+        if n['k'] == 'DeclRefExpr' and n.get('rk') == 'param' and n.get('d') in pmap:
+            return pmap[n['d']]
+        m = dict(n)
+        m['f'] = n.get('f', g.file)
+        new_id = len(f.nodes)
+        f.nodes.append(m)
+        m['ch'] = [self._clone(g, c, f, pmap) if c >= 0 else c for c in n['ch']]
+        if 'args' in n:
+            # args are children too; keep the mapping consistent
+            amap = dict(zip(n['ch'], m['ch']))
+            m['args'] = [amap[a] if a in amap else self._clone(g, a, f, pmap) for a in n['args']]
+        for k in self.ID_KEYS:
+            v = n.get(k)
+            if isinstance(v, int) and v >= 0:
+                amap = dict(zip(n['ch'], m['ch']))
+                m[k] = amap[v] if v in amap else self._clone(g, v, f, pmap)
+        return new_id
+
+    def resolve_helpers(self, rounds=2):
+        """replace calls of one-line side-effect-free helpers (lambdas, file-local functions) by their return
+        expression, so that every engine sees through a named predicate such as `inrange(x, lo, hi)` or
+        `hascap(CAP_C1)` exactly as if it had been written in place."""
+        roots = {}
+        for g in self.fns.values():
+            r = self._helper_root(g)
+            if r is not None:
+                roots[g.usr] = (g, r)
+        n_inl = 0
+        if not roots:
+            return 0
+        for _ in range(rounds):
+            changed = False
+            for f in list(self.fns.values()):
+                for i in range(len(f.nodes)):
+                    n = f.nodes[i]
+                    if n is None or n.get('k') not in ('CallExpr', 'CXXOperatorCallExpr', 'CXXMemberCallExpr'):
+                        continue
+                    ce = n.get('callee') or {}
+                    hit = roots.get(ce.get('usr'))
+                    if hit is None or hit[0].usr == f.usr:
+                        continue
+                    g, root = hit
+                    args = n.get('args', [])
+                    off = 1 if (n['k'] == 'CXXOperatorCallExpr' and ce.get('method')) else 0
+                    if n['k'] == 'CXXMemberCallExpr' and not n.get('objthis'):
+                        continue
+                    real_args = args[off:]
+                    if len(real_args) < len(g.params) or not all(self._pure_arg(f, a) for a in real_args):
+                        continue
+                    pmap = {p['d']: real_args[pi] for pi, p in enumerate(g.params)}
+                    new_root = self._clone(g, root, f, pmap)
+                    repl = {'k': 'ParenExpr', 'ch': [new_root], 't': n.get('t', ''), 'l': n['l'], 'c': n.get('c', 0),
+                            'el': n.get('el', n['l']), 'inlined': g.q}
+                    if 'f' in n:
+                        repl['f'] = n['f']
+                    f.nodes[i] = repl
+                    f._parent = None
+                    n_inl += 1
+                    changed = True
+            if not changed:
+                break
+        self.inlined = n_inl
+        return n_inl
 
     def fn(self, q):
         """all bodies with qualified name q (overloads)."""
